@@ -118,6 +118,34 @@ static void nary_ops(const Ops<T>& in, Rng& rng, long it)
     CV("C02", "sub", 2, va - vb, ref::sub(x, y), true, SF);
     CV("C02", "mul", 2, va * vb, ref::mul(x, y), true, SF);
     CV("C02", "div", 2, va / vb, ref::div(x, y), true, SF);
+    // other API forms of the four operations: named functions, compound assignment, mixed batch/scalar operands
+    CV("C02", "xs_add", 2, xs::add(va, vb), ref::add(x, y), true, SF);
+    CV("C02", "xs_sub", 2, xs::sub(va, vb), ref::sub(x, y), true, SF);
+    CV("C02", "xs_mul", 2, xs::mul(va, vb), ref::mul(x, y), true, SF);
+    CV("C02", "xs_div", 2, xs::div(va, vb), ref::div(x, y), true, SF);
+    CV("C02", "add_assign", 2, (va += vb), ref::add(x, y), true, SF);
+    CV("C02", "sub_assign", 2, (va -= vb), ref::sub(x, y), true, SF);
+    CV("C02", "mul_assign", 2, (va *= vb), ref::mul(x, y), true, SF);
+    CV("C02", "div_assign", 2, (va /= vb), ref::div(x, y), true, SF);
+    CV("C02", "xs_neg", 1, xs::neg(va), frombits<T>((U)(bits(x) ^ ((U)1 << (sizeof(T) * 8 - 1)))), true, SB);
+    CV("C02", "xs_bitwise_and", 2, xs::bitwise_and(va, vb), frombits<T>((U)(bits(x) & bits(y))), true, SB);
+    CV("C02", "xs_bitwise_or", 2, xs::bitwise_or(va, vb), frombits<T>((U)(bits(x) | bits(y))), true, SB);
+    CV("C02", "xs_bitwise_xor", 2, xs::bitwise_xor(va, vb), frombits<T>((U)(bits(x) ^ bits(y))), true, SB);
+    CV("C02", "xs_bitwise_not", 1, xs::bitwise_not(va), frombits<T>((U)~bits(x)), true, SB);
+    {
+        Ops<T> d = in;
+        for (size_t i = 0; i < N; ++i)
+        {
+            d.b[i] = in.b[0];
+            d.cb[i] = in.cb[0];
+        }
+        const Ops<T>& in = d;
+        CV("C02", "add_scalar_rhs", 2, va + vb.get(0), ref::add(x, y), true, SF);
+        CV("C02", "sub_scalar_lhs", 2, vb.get(0) - va, ref::sub(y, x), true, SF);
+        CV("C02", "mul_scalar_lhs", 2, vb.get(0) * va, ref::mul(y, x), true, SF);
+        CV("C02", "div_scalar_lhs", 2, vb.get(0) / va, ref::div(y, x), true, SF);
+        CV("C02", "div_scalar_rhs", 2, va / vb.get(0), ref::div(x, y), true, SF);
+    }
     CV("C02", "copysign", 2, xs::copysign(va, vb), frombits<T>((U)((bits(x) & ~((U)1 << (sizeof(T) * 8 - 1))) | (bits(y) & ((U)1 << (sizeof(T) * 8 - 1))))), true, SB);
     CV("C02", "bitwise_and", 2, va & vb, frombits<T>((U)(bits(x) & bits(y))), true, SB);
     CV("C02", "bitwise_or", 2, va | vb, frombits<T>((U)(bits(x) | bits(y))), true, SB);
